@@ -1281,6 +1281,21 @@ class windows_numpy:
         x = da.from_array(d, chunks=(chunks,))
         if op == "swv":
             return np.asarray(da.sliding_window_view(x, w).compute()), swv(d, w)
+        if op == "swv-multi":
+            # several windows at once, over distinct axes of a 2-D array and twice over the same axis (NumPy applies
+            # the windows one after another, so a repeated axis loses the sum of the (window - 1)s)
+            d2 = (np.arange(40.0).reshape(8, 5) * 3) % 11
+            x2 = da.from_array(d2, chunks=(chunks[:1] + (8 - chunks[0],) if 0 < chunks[0] < 8 else (8,), (2, 3)))
+            out = []
+            for ws, ax in (((2, w), (0, 0)), ((w, 2), (0, 1)), ((2, 2, w), (0, 1, 0))):
+                try:
+                    want = swv(d2, ws, axis=ax)
+                except ValueError:
+                    continue
+                got = da.sliding_window_view(x2, ws, axis=ax)
+                out.append((np.asarray(got.compute()), want, got.shape))
+            ok = all(_same(g, w_) and tuple(sh) == w_.shape for g, w_, sh in out)
+            return (np.array(1.0), np.array(1.0)) if ok else (out[0][0] if out else np.array(0.0), np.array(-1.0))
         if op.startswith("swv-"):
             red = op[4:]
             y = getattr(da.sliding_window_view(x, w), red)(axis=-1)
@@ -1336,11 +1351,11 @@ class windows_numpy:
         lays = [c for c in cat.compositions(9) if len(c) <= 4]
         if tier == "quick":
             lays = rng.sample(lays, 14) + [(9,), (3, 3, 3), (1, 1, 7), (2, 2, 2, 3)]
-        ops = ["swv", "swv-sum", "swv-max", "swv-mean", "swv-min", "overlap-none", "overlap-reflect", "overlap-periodic",
+        ops = ["swv", "swv-multi", "swv-sum", "swv-max", "swv-mean", "swv-min", "overlap-none", "overlap-reflect", "overlap-periodic",
                "overlap-nearest", "overlap-const", "diff", "cumsum", "cumprod", "gradient"]
         for c in lays:
             for op in ops:
-                ws = range(1, 7) if op.startswith("swv") else ((1, 2) if op.startswith("overlap") or op == "diff" else (1,))
+                ws = (range(2, 5) if op == "swv-multi" else range(1, 7)) if op.startswith("swv") else ((1, 2) if op.startswith("overlap") or op == "diff" else (1,))
                 for w in ws:
                     yield {"op": op, "chunks": c, "w": w}
         for nblk in range(1, 35 if tier == "quick" else 70):
